@@ -29,12 +29,27 @@ theorem extracted_ladder_wf : Gen.AstLadder.astLadder.chain = true ∧ Gen.AstLa
 parenthesisation the grammar admits, any size), `print e` followed by `)`, `]`, `;` or nothing is turned by
 prepareTernaryOpForAST + createAst into exactly one tree: `toAst e`, each operator with the operands the grammar
 gives it.  Hypotheses: the depth guard, and `declOK`: no `(` is followed by something `skipDecl` takes for a
-declaration (see `paren_decl_counterexample_tokens` / docs: that exclusion is a finding). -/
+declaration (this is the `_partial` form: `createAst_follows_grammar_counterexample` shows the hypothesis cannot be dropped, finding F7a). -/
 theorem createAst_follows_grammar {L : Ladder} (hL : L.WF = true) (cpp : Bool) (e : PExpr)
     (hg : Gram L false L.levels e = true) (hd : (prepE e).declOK = true) (hn : e.need ≤ L.maxDepth)
     (rest : List Tok) (hr : endOK rest = true) (ha : rest.all Tok.inAlphabet = true) (hq : ∀ t ∈ rest, t ≠ Tok.op ['?']) :
     astOf L cpp (e.print ++ rest) = .ok ⟨(prepE e).print.reverse, rest, [⟨(prepE e).rootOff, e.toAst⟩], 0⟩ :=
   astOf_print hL cpp e hg hd hn rest hr ha hq
+
+/-- the full-strength statement (no `declOK`) is FALSE of the code as modelled: for `( a * b = c ) ;` skipDecl
+(lib/tokenlist.cpp) jumps over `a *` and the tree is `=`(b, c) (finding F7a; the real-code witnesses are in
+corpus/C07) -/
+theorem createAst_follows_grammar_counterexample :
+    ¬ ∀ (e : PExpr), Gram Gen.AstLadder.astLadder false Gen.AstLadder.astLadder.levels e = true →
+        e.need ≤ Gen.AstLadder.astLadder.maxDepth →
+        astOf Gen.AstLadder.astLadder true (e.print ++ [Tok.op [';']]) =
+          .ok ⟨(prepE e).print.reverse, [Tok.op [';']], [⟨(prepE e).rootOff, e.toAst⟩], 0⟩ := by
+  intro h
+  have h1 := h declWitness (by decide) (by decide)
+  rw [declWitness_parse (by decide) true (by decide) (by decide)] at h1
+  have h2 := congrArg (fun r => match r with | .ok st => st.stk.map Entry.ast | .error _ => []) h1
+  revert h2
+  decide
 
 /-- the same for the table of the working tree -/
 theorem createAst_follows_grammar_extracted (cpp : Bool) (e : PExpr)
